@@ -76,8 +76,11 @@ def fam_c(rng, ident):
     exp_open = 0
     for _ in range(3 + rng.below(8)):
         n += 1
-        k = rng.below(6)
-        if k == 0:      # completed call
+        k = rng.below(7)
+        if k == 6:      # compressed call whose argument the compressor refuses (msgpackzip: integer map key above int64 max):
+                        # it fails before anything is written and must not stay in the table
+            s.append("call/c%d/%s/a[i:%d,m{i:9404100041262800253=n}]/2/-/0/nowait" % (n, scn.M.hex(), n)); s.append("await/c%d" % n)
+        elif k == 0:      # completed call
             s.append(scn.call(n)); s.append("needseq"); 
         elif k == 1:    # cancelled
             s.append(scn.call(n)); s.append(scn.cancel(n))
